@@ -6,6 +6,7 @@
 package storage
 
 import (
+	"fmt"
 	"os"
 	"path"
 	"sync"
@@ -100,11 +101,19 @@ func (s *Store) Push(b bpv7.Bundle) error {
 
 		knownFragment := false
 		compPart := bi.Parts[0]
+		compLen := fragmentDataLength(b)
 		for _, part := range biStore.Parts {
 			if part.FragmentOffset == compPart.FragmentOffset &&
 				part.TotalDataLength == compPart.TotalDataLength {
-				knownFragment = true
-				break
+				// Fragments of different fragmentations may start at the same offset. Such a fragment is only known if
+				// a stored one carries at least as much data.
+				if stored, err := part.Load(); err != nil || fragmentDataLength(stored) >= compLen {
+					knownFragment = true
+					break
+				}
+
+				// A fragment's ID, and thus its file name, does not tell its length.
+				compPart.Filename = fmt.Sprintf("%s-%d", bi.Parts[0].Filename, compLen)
 			}
 		}
 
@@ -202,4 +211,12 @@ func (s *Store) QueryPending() (bis []BundleItem, err error) {
 func (s *Store) KnowsBundle(bid bpv7.BundleID) bool {
 	_, err := s.QueryId(bid)
 	return err != badgerhold.ErrNotFound
+}
+
+// fragmentDataLength is the length of the payload data a (fragment) Bundle carries.
+func fragmentDataLength(b bpv7.Bundle) int {
+	if payload, err := b.PayloadBlock(); err == nil {
+		return len(payload.Value.(*bpv7.PayloadBlock).Data())
+	}
+	return 0
 }
